@@ -329,6 +329,12 @@ func runConc(prop, tier string, sc *core.Scratch, ev *core.Evidence, rep *core.R
 	}
 	ev.Set("schedules_executed", totalRuns)
 	ev.Set("real_states_visited", totalStates)
+	// the template's algorithm as a TLA+ model: properties by TLC, and state-set
+	// conformance between the model and real mocks
+	if err := implConformance(sc, ev, rep, mod, bin, dir, tier); err != nil {
+		return 2, err
+	}
+	ev.Set("spec_drift", rep.Drift)
 	// linearizability of every distinct history (C05)
 	if prop == "C05" {
 		n, err := checkLin(sc, ev, rep, prop, distinctHist)
